@@ -150,23 +150,43 @@ def _has_active_fact(cl, recv='condition_stack'):
     return False
 
 
+def _counter_updates(ctx):
+    """Every statement of ConditionStack (helpers inlined by the normaliser) that changes the mute counter, except its initialisation."""
+    cs = ctx.repo.cls(CS)
+    out = []
+    for name, m in cs.methods.items():
+        if name in ('_increment_mute_counter', '_decrement_mute_counter'):
+            continue      # read through: their bodies are judged where they are called (inlined)
+        for n in ast.walk(m.node):
+            if isinstance(n, ast.AugAssign) and unparse(n.target) == 'self._mute_counter':
+                out.append((m, n))
+            elif isinstance(n, ast.Assign) and any(unparse(t) == 'self._mute_counter' for t in n.targets) and name != '__init__':
+                out.append((m, n))
+    return out
+
+
 def mute_guards(ctx):
     """#mute / #emit change the mute state only in selected branches (shared with C03)."""
     pc = ctx.repo.func(CS + '.process_condition')
     r3 = resolver(ctx, pc, inline=False)
     n = 0
-    for c in ast.walk(pc.node):
-        if isinstance(c, ast.Call) and unparse(c.func) in ('self._increment_mute_counter', 'self._decrement_mute_counter'):
-            n += 1
-            cl = facts_at(ctx, pc, c, r3)
-            which = 'mute' if 'increment' in unparse(c.func) else 'unmute'
-            ctx.check(_has_active_fact(cl), f'guard:{which}', pc.site(c),
-                      f'#{which if which == "mute" else "emit/#unmute"} changes the mute state only in a selected branch', describe_facts(cl))
-            kind = 'MutePreprocessorCondition' if which == 'mute' else 'UnmutePreprocessorCondition'
-            ok = any(('isinstance', 'condition', kind, True) in cc for cc in cl)
-            ctx.check(ok, f'guard:{which}:dispatch', pc.site(c), f'the counter is {"raised" if which == "mute" else "lowered"} for a {kind}', describe_facts(cl))
+    for m, c in _counter_updates(ctx):
+        if m is not pc:
+            ctx.refute(f'guard:counter-changed-in:{m.name}', m.site(c), 'the mute counter changes only where directives are processed', unparse(c))
+            continue
+        if not (isinstance(c, ast.AugAssign) and isinstance(c.op, (ast.Add, ast.Sub)) and unparse(c.value) == '1'):
+            ctx.refute('guard:counter-step', pc.site(c), 'the mute counter moves by one', unparse(c))
+            continue
+        n += 1
+        cl = facts_at(ctx, pc, c, r3)
+        which = 'mute' if isinstance(c.op, ast.Add) else 'unmute'
+        ctx.check(_has_active_fact(cl), f'guard:{which}', pc.site(c),
+                  f'#{which if which == "mute" else "emit/#unmute"} changes the mute state only in a selected branch', describe_facts(cl))
+        kind = 'MutePreprocessorCondition' if which == 'mute' else 'UnmutePreprocessorCondition'
+        ok = any(('isinstance', 'condition', kind, True) in cc for cc in cl)
+        ctx.check(ok, f'guard:{which}:dispatch', pc.site(c), f'the counter is {"raised" if which == "mute" else "lowered"} for a {kind}', describe_facts(cl))
     if n < 2:
-        ctx.refute('guard:mute-dispatch', pc.site(), '#mute raises and #emit/#unmute lowers the mute counter', f'{n} counter calls in process_condition')
+        ctx.refute('guard:mute-dispatch', pc.site(), '#mute raises and #emit/#unmute lowers the mute counter', f'{n} counter updates in process_condition')
 
 
 def c08_3(ctx):
@@ -414,17 +434,17 @@ def mute_state(ctx):
     from engine.lin import to_cnf
     ok = len(rr) == 1 and to_cnf(rr[0].value, True, r0) == [frozenset({lit_cmp(ctx, im, 'self._mute_counter > 0', r0)})]
     ctx.check(ok, 'mute:muted-iff-positive', im.site(), 'lines are muted iff the mute counter is positive', '; '.join(unparse(r) for r in rr))
-    inc, dec = cs.methods['_increment_mute_counter'], cs.methods['_decrement_mute_counter']
-    ai = [n for n in ast.walk(inc.node) if isinstance(n, ast.AugAssign)]
-    ctx.check(len(ai) == 1 and isinstance(ai[0].op, ast.Add) and unparse(ai[0].value) == '1' and unparse(ai[0].target) == 'self._mute_counter',
-              'mute:increment', inc.site(), '#mute raises the counter by one', '; '.join(unparse(a) for a in ai))
-    ad = [n for n in ast.walk(dec.node) if isinstance(n, ast.AugAssign)]
-    ok = len(ad) == 1 and isinstance(ad[0].op, ast.Sub) and unparse(ad[0].value) == '1'
+    pc = ctx.repo.func(CS + '.process_condition')
+    ups = [c for m, c in _counter_updates(ctx) if m is pc and isinstance(c, ast.AugAssign)]
+    ai = [c for c in ups if isinstance(c.op, ast.Add)]
+    ctx.check(len(ai) == 1 and unparse(ai[0].value) == '1', 'mute:increment', pc.site(ai[0]) if ai else pc.site(), '#mute raises the counter by one', '; '.join(unparse(a) for a in ai))
+    ad = [c for c in ups if isinstance(c.op, ast.Sub)]
+    ok = len(ad) == 1 and unparse(ad[0].value) == '1'
     if ok:
-        rd = resolver(ctx, dec, inline=False)
-        cl = facts_at(ctx, dec, ad[0], rd)
-        ok = clause_implies_(cl, lit_cmp(ctx, dec, 'self._mute_counter > 0', rd))
-    ctx.check(ok, 'mute:decrement-saturates', dec.site(), '#emit/#unmute lowers the counter only while it is positive (a surplus #emit is a no-op)',
+        rd = resolver(ctx, pc, inline=False)
+        cl = facts_at(ctx, pc, ad[0], rd)
+        ok = clause_implies_(cl, lit_cmp(ctx, pc, 'self._mute_counter > 0', rd))
+    ctx.check(ok, 'mute:decrement-saturates', pc.site(ad[0]) if ad else pc.site(), '#emit/#unmute lowers the counter only while it is positive (a surplus #emit is a no-op)',
               '; '.join(unparse(a) for a in ad) + ' without a dominating `counter > 0` test: a surplus #emit makes the counter negative and the next '
               '#mute no longer mutes')
     init = cs.methods['__init__']
